@@ -9,6 +9,7 @@
 mod fam_access;
 mod fam_liq;
 mod fam_math;
+mod fam_position;
 mod hist;
 mod hist_oracle;
 mod rng;
@@ -60,6 +61,7 @@ pub fn families() -> Vec<Box<dyn Family>> {
     hist::register(&mut v);
     fam_liq::register(&mut v);
     fam_access::register(&mut v);
+    fam_position::register(&mut v);
     v
 }
 
